@@ -33,7 +33,7 @@ from runner import Script, cx, hx, qs  # noqa: E402
 
 PROP = "C18"
 ALPHA = 0.05
-REGIMES = ["floor", "mixed", "tracking"]
+REGIMES = ["floor", "mixed", "tracking", "sweep"]
 
 
 def overdetermined(sc):
@@ -246,19 +246,27 @@ def work_rates(chunk_id, payload):
     cases, meta = [], {}
     for k in range(n):
         ctype = physics.TYPES[(chunk_id + k) % 8]
-        regime = REGIMES[((chunk_id + k) // 8) % 3]
+        regime = REGIMES[((chunk_id + k) // 8) % len(REGIMES)]
         p = int(rng.choice([1, 2, 2, 2, 3]))
         if ctype in ("T16", "U16"):
             p = int(rng.choice([1, 2, 2]))
-        sc, kappa = scenario(rng, ctype, p, p, 1, leak_samples=6)
+        # "sweep": two frequencies whose noise differs by a factor 10..30 (in
+        # either direction); every frequency is judged with its own sigma
+        F = 2 if regime == "sweep" else 1
+        sc, kappa = scenario(rng, ctype, p, p, F, leak_samples=6)
         if sc is None:
             continue
         if ctype in ("T16", "U16"):
             sc.stds = [st for st in sc.stds if st.n == sc.p]
             if not (sc.well_determined(300.0)[0] and overdetermined(sc)):
                 continue
+        nfv = None
         if regime == "floor":
             nf, tr = 10 ** rng.uniform(-5, -3), None
+        elif regime == "sweep":
+            nf, tr = 10 ** rng.uniform(-5, -3.5), None
+            ratio = 10 ** rng.uniform(1.0, 1.5)
+            nfv = [nf, nf * ratio] if rng.random() < 0.5 else [nf * ratio, nf]
         elif regime == "mixed":
             nf = 10 ** rng.uniform(-5, -3)
             tr = nf * 10 ** rng.uniform(-0.5, 0.5)
@@ -267,10 +275,14 @@ def work_rates(chunk_id, payload):
             tr = 10 ** rng.uniform(-4, -2.5)
         # noise of exactly the declared size on every measurement cell
         for st in sc.stds:
-            M = sc.enet[0].measure(st.S_full(0, sc.p))
-            sig = np.sqrt(nf ** 2 + (tr or 0.0) ** 2 * np.abs(M) ** 2)
-            st.noise = [sig * (rng.standard_normal(M.shape) +
-                               1j * rng.standard_normal(M.shape)) / np.sqrt(2)]
+            st.noise = []
+            for f in range(F):
+                M = sc.enet[f].measure(st.S_full(f, sc.p))
+                nf_f = nfv[f] if nfv else nf
+                sig = np.sqrt(nf_f ** 2 + (tr or 0.0) ** 2 * np.abs(M) ** 2)
+                st.noise.append(sig * (rng.standard_normal(M.shape) + 1j *
+                                       rng.standard_normal(M.shape)) /
+                                np.sqrt(2))
         if outlier:
             # the displaced standard must be redundant: without it the rest
             # still determines every error term (otherwise the least-squares
@@ -289,14 +301,21 @@ def work_rates(chunk_id, payload):
                     "outlier_no_redundant_standard", 0) + 1
                 continue
             st = sc.stds[cand[0]]
-            M = sc.enet[0].measure(st.S_full(0, sc.p))
-            sig = np.sqrt(nf ** 2 + (tr or 0.0) ** 2 * np.abs(M) ** 2)
+            fo = F - 1      # displaced at the last frequency only
+            M = sc.enet[fo].measure(st.S_full(fo, sc.p))
+            nf_f = nfv[fo] if nfv else nf
+            sig = np.sqrt(nf_f ** 2 + (tr or 0.0) ** 2 * np.abs(M) ** 2)
             ph = np.exp(1j * rng.uniform(0, 2 * np.pi, M.shape))
-            st.noise = [st.noise[0] + 100.0 * sig * ph]
+            st.noise = list(st.noise)
+            st.noise[fo] = st.noise[fo] + 100.0 * sig * ph
         s = Script()
         s.op("vc=vnacal_create")
         s.rvec("freq", sc.freqs)
-        arg = noise_grid(s, sc, rng, nf, tr, "single", "e")
+        if nfv:
+            s.rvec("en", nfv)
+            arg = "%s 2 @en NULL" % ("NULL" if rng.random() < 0.5 else "@freq")
+        else:
+            arg = noise_grid(s, sc, rng, nf, tr, "single", "e")
         L = emit_cal(s, sc, "vw", "w", m_error=[arg], pvalue=ALPHA, uid=[0],
                      tag="1")
         cid = "r%d_%d" % (chunk_id, k)
@@ -589,19 +608,19 @@ def main():
     binary = chk.build("asan")
     quick = chk.tier == "quick"
     n_exact = int((240 if quick else 6000) * chk.args.scale)
-    n_rate = int((8 * 3 * 150 if quick else 8 * 3 * 1500) * chk.args.scale)
-    n_out = int((8 * 3 * 64 if quick else 8 * 3 * 300) * chk.args.scale)
+    n_rate = int((8 * 4 * 150 if quick else 8 * 4 * 1500) * chk.args.scale)
+    n_out = int((8 * 4 * 64 if quick else 8 * 4 * 300) * chk.args.scale)
     nch = 16 if quick else 48
     for part in R.pmap(work_exact, [(chk.seed, max(1, n_exact // nch), binary,
                                     chk.workroot) for _ in range(nch)]):
         chk.merge(part)
-    # chunk sizes are multiples of 24 so that every (type, regime) cell gets
+    # chunk sizes are multiples of 32 so that every (type, regime) cell gets
     # the same share
-    per = max(24, (n_rate // nch) // 24 * 24)
+    per = max(32, (n_rate // nch) // 32 * 32)
     for part in R.pmap(work_rates, [(chk.seed, per, binary, chk.workroot, False)
                                     for _ in range(nch)]):
         chk.merge(part)
-    per = max(24, (n_out // nch) // 24 * 24)
+    per = max(32, (n_out // nch) // 32 * 32)
     for part in R.pmap(work_rates, [(chk.seed, per, binary, chk.workroot, True)
                                     for _ in range(nch)]):
         chk.merge(part)
